@@ -329,15 +329,24 @@ class C05(Property):
                 base = build(shape)
                 nodes = list(_preorder(base))
                 conts = [n for n in nodes if n["c"]]
-                for downs in itertools.product(down_opts, repeat=len(nodes)):
-                    for ups in itertools.product(up_opts, repeat=len(conts)):
-                        t = copy.deepcopy(base)
-                        tn = list(_preorder(t))
-                        for n, d in zip(tn, downs):
-                            n["down"] = list(d)
-                        for n, u in zip([x for x in tn if x["c"]], ups):
-                            n["up"] = list(u)
-                        yield {"tree": _number(t)}
+                leaves = [i for i, n in enumerate(nodes) if not n["c"]]
+                # optional / empty flags on the leaves (the optional-and-empty shortcut interacts with sibling
+                # and level order): all combinations for 2-node trees, and for 3-node trees in the thorough tier
+                flag_opts = [(False, False)]
+                if size == 2 or (tier == "thorough" and size == 3):
+                    flag_opts = [(False, False), (True, True), (True, False), (False, True)]
+                for flags in itertools.product(flag_opts, repeat=len(leaves)):
+                    for downs in itertools.product(down_opts, repeat=len(nodes)):
+                        for ups in itertools.product(up_opts, repeat=len(conts)):
+                            t = copy.deepcopy(base)
+                            tn = list(_preorder(t))
+                            for n, d in zip(tn, downs):
+                                n["down"] = list(d)
+                            for n, u in zip([x for x in tn if x["c"]], ups):
+                                n["up"] = list(u)
+                            for i, (o, e) in zip(leaves, flags):
+                                tn[i]["opt"], tn[i]["empty"] = o, e
+                            yield {"tree": _number(t)}
 
     def generate(self, rng, n, tier):
         for _ in range(n):
